@@ -89,7 +89,79 @@ Qed.
 Lemma min_mtime_none es : min_mtime es = None <-> es = [].
 Proof. destruct es; cbn; split; congruence. Qed.
 
-Lemma pop_nil k : pop k [] = None. Proof. reflexivity. Qed.
+(* ---- the heap order is a total preorder, so a non-empty heap has a minimal element ---- *)
+Lemma lex_leb_total : forall a b, lex_leb a b = true \/ lex_leb b a = true.
+Proof.
+  induction a as [|x a IH]; intros [|y b]; cbn [lex_leb]; auto.
+  destruct (N.lt_trichotomy x y) as [H|[H|H]].
+  - left. apply orb_true_iff. left. now apply N.ltb_lt.
+  - subst. rewrite N.ltb_irrefl, N.eqb_refl. cbn [orb andb]. apply IH.
+  - right. apply orb_true_iff. left. now apply N.ltb_lt.
+Qed.
+Lemma lex_leb_trans : forall a b c, lex_leb a b = true -> lex_leb b c = true -> lex_leb a c = true.
+Proof.
+  induction a as [|x a IH]; intros [|y b] [|z c]; cbn [lex_leb]; auto; try discriminate.
+  rewrite !orb_true_iff, !andb_true_iff, !N.ltb_lt, !N.eqb_eq.
+  intros [H1|[-> H1]] [H2|[-> H2]].
+  - left. lia.
+  - left. lia.
+  - left. lia.
+  - right. split; [reflexivity|]. eapply IH; eauto.
+Qed.
+
+Lemma mtime_leb_total a b : mtime_leb a b = true \/ mtime_leb b a = true.
+Proof. unfold mtime_leb. rewrite !N.leb_le. lia. Qed.
+Lemma mtime_leb_trans a b c : mtime_leb a b = true -> mtime_leb b c = true -> mtime_leb a c = true.
+Proof. unfold mtime_leb. rewrite !N.leb_le. lia. Qed.
+Lemma key_leb_total a b : key_leb a b = true \/ key_leb b a = true.
+Proof.
+  unfold key_leb. destruct (N.lt_trichotomy (p_mtime a) (p_mtime b)) as [H|[H|H]].
+  - left. apply orb_true_iff. left. now apply N.ltb_lt.
+  - rewrite H, N.ltb_irrefl, N.eqb_refl. cbn [orb andb]. apply lex_leb_total.
+  - right. apply orb_true_iff. left. now apply N.ltb_lt.
+Qed.
+Lemma key_leb_trans a b c : key_leb a b = true -> key_leb b c = true -> key_leb a c = true.
+Proof.
+  unfold key_leb. rewrite !orb_true_iff, !andb_true_iff, !N.ltb_lt, !N.eqb_eq.
+  intros [H1|[E1 H1]] [H2|[E2 H2]].
+  - left. lia.
+  - left. lia.
+  - left. lia.
+  - right. split; [lia|]. eapply lex_leb_trans; eauto.
+Qed.
+Lemma heap_leb_total v a b : heap_leb v a b = true \/ heap_leb v b a = true.
+Proof. unfold heap_leb. destruct (v_fix18 v); [apply key_leb_total|apply mtime_leb_total]. Qed.
+Lemma heap_leb_trans v a b c : heap_leb v a b = true -> heap_leb v b c = true -> heap_leb v a c = true.
+Proof. unfold heap_leb. destruct (v_fix18 v); [apply key_leb_trans|apply mtime_leb_trans]. Qed.
+Lemma heap_leb_refl v a : heap_leb v a a = true.
+Proof. destruct (heap_leb_total v a a); assumption. Qed.
+Lemma heap_leb_mtime v a b : heap_leb v a b = true -> p_mtime a <= p_mtime b.
+Proof.
+  unfold heap_leb, key_leb, mtime_leb. destruct (v_fix18 v).
+  - rewrite orb_true_iff, andb_true_iff, N.ltb_lt, N.eqb_eq. lia.
+  - rewrite N.leb_le. lia.
+Qed.
+(* an entry that is strictly younger than another one never comes before it *)
+Lemma heap_leb_younger v a b : p_mtime b < p_mtime a -> heap_leb v a b = false.
+Proof.
+  intros H. destruct (heap_leb v a b) eqn:E; [|reflexivity]. apply heap_leb_mtime in E. lia.
+Qed.
+
+Lemma exists_min v : forall es, es <> [] -> exists e, In e es /\ is_min (heap_leb v) es e = true.
+Proof.
+  unfold is_min. induction es as [|a t IH]; intros Hne; [contradiction|].
+  destruct t as [|b t'].
+  - exists a. split; [now left|]. cbn [forallb]. now rewrite heap_leb_refl.
+  - destruct IH as (m & Hm & Hmin); [discriminate|].
+    destruct (heap_leb v a m) eqn:E.
+    + exists a. split; [now left|].
+      apply forallb_forall. intros x [<-|Hx]; [apply heap_leb_refl|].
+      rewrite forallb_forall in Hmin. eapply heap_leb_trans; eauto.
+    + exists m. split; [now right|]. change (forallb (heap_leb v m) (a :: b :: t')) with (heap_leb v m a && forallb (heap_leb v m) (b :: t')).
+      rewrite Hmin, andb_true_r. destruct (heap_leb_total v a m); congruence.
+Qed.
+
+Lemma pop_nil v k : pop v k [] = None. Proof. reflexivity. Qed.
 
 Lemma count_if_pos {A} (p : A -> bool) l x : In x l -> p x = true -> (0 < count_if p l)%nat.
 Proof.
@@ -97,53 +169,33 @@ Proof.
   destruct (filter p l); [contradiction|cbn; lia].
 Qed.
 
-(* BinaryHeap::pop: some element of minimal mtime leaves the heap, whatever the tie choice *)
-Lemma pop_spec k es : es <> [] ->
-  exists l1 e l2, pop k es = Some (e, l1 ++ l2) /\ es = l1 ++ e :: l2 /\
+(* BinaryHeap::pop: some element that is minimal in the heap order leaves, whatever the choice *)
+Lemma pop_spec v k es : es <> [] ->
+  exists l1 e l2, pop v k es = Some (e, l1 ++ l2) /\ es = l1 ++ e :: l2 /\
+                  (forall x, In x es -> heap_leb v e x = true) /\
                   (forall x, In x es -> p_mtime e <= p_mtime x).
 Proof.
-  intros Hne. unfold pop. destruct (min_mtime es) as [m|] eqn:Em; [|apply min_mtime_none in Em; contradiction].
-  destruct (min_mtime_spec _ _ Em) as [Hmin (e0 & He0 & Ee0)].
-  set (p := fun e => p_mtime e =? m).
-  assert (Hc : (0 < count_if p es)%nat) by (apply (count_if_pos p es e0 He0); unfold p; now apply N.eqb_eq).
+  intros Hne. unfold pop. destruct (exists_min v es Hne) as (e0 & He0 & Hm0).
+  set (p := is_min (heap_leb v) es).
+  assert (Hc : (0 < count_if p es)%nat) by (apply (count_if_pos p es e0 He0); exact Hm0).
   destruct (take_kth_spec p es (Nat.modulo k (count_if p es))) as (l1 & x & l2 & E & El & Px).
   { apply Nat.mod_upper_bound. lia. }
-  exists l1, x, l2. repeat split; auto. intros y Hy. unfold p in Px. apply N.eqb_eq in Px. rewrite Px. now apply Hmin.
+  exists l1, x, l2. unfold p, is_min in Px. rewrite forallb_forall in Px.
+  repeat split; auto. intros y Hy. apply (heap_leb_mtime v). auto.
 Qed.
 
-Lemma pop_some_inv k es e r : pop k es = Some (e, r) ->
+Lemma pop_some_inv v k es e r : pop v k es = Some (e, r) ->
   exists l1 l2, r = l1 ++ l2 /\ es = l1 ++ e :: l2 /\ (forall x, In x es -> p_mtime e <= p_mtime x).
 Proof.
   intros H. destruct es as [|a t]; [discriminate|].
-  destruct (pop_spec k (a :: t)) as (l1 & x & l2 & E & El & Hm); [discriminate|].
+  destruct (pop_spec v k (a :: t)) as (l1 & x & l2 & E & El & _ & Hm); [discriminate|].
   rewrite E in H. injection H as <- <-. eauto.
-Qed.
-
-(* if the head is older than everything else (or as old, and the tie choice is 0), the head is popped *)
-Lemma pop_head_strict k e t : (forall x, In x t -> p_mtime e < p_mtime x) -> pop k (e :: t) = Some (e, t).
-Proof.
-  intros H. destruct (pop_spec k (e :: t)) as (l1 & x & l2 & E & El & Hm); [discriminate|].
-  destruct l1 as [|a l1]; cbn [app] in El.
-  - injection El as <- <-. exact E.
-  - injection El as <- ->. exfalso.
-    assert (Hx : In x (l1 ++ x :: l2)) by (apply in_or_app; right; cbn; auto).
-    specialize (H x Hx). specialize (Hm e (or_introl eq_refl)). lia.
-Qed.
-Lemma pop_head_0 e t : (forall x, In x t -> p_mtime e <= p_mtime x) -> pop 0 (e :: t) = Some (e, t).
-Proof.
-  intros H. unfold pop. destruct (min_mtime (e :: t)) as [m|] eqn:Em; [|discriminate].
-  destruct (min_mtime_spec _ _ Em) as [Hmin (e0 & He0 & Ee0)].
-  assert (Hm : p_mtime e = m).
-  { specialize (Hmin e (or_introl eq_refl)). destruct He0 as [<-|He0]; [lia|]. specialize (H e0 He0). lia. }
-  rewrite Nat.mod_0_l.
-  - apply (take_kth_0 _ (e :: t) [] e t); auto. now apply N.eqb_eq.
-  - assert (0 < count_if (fun e1 => N.eqb (p_mtime e1) m) (e :: t))%nat; [|lia].
-    apply (count_if_pos _ _ e); [cbn; auto|now apply N.eqb_eq].
 Qed.
 
 (* ------------------------------------------------------------------ the directory *)
 Section WithPrefix.
 Variable prefix : bytes.
+Variable b18 : bool.      (* with or without the repair of D18: every lemma holds for both *)
 Notation islog := (is_log_file post_fix prefix).
 Definition logs (fs : list file) : list file := filter islog fs.
 
@@ -250,16 +302,17 @@ Proof. rewrite map_app, sumN_app. cbn [map]. rewrite sumN_cons. lia. Qed.
    the popped entry *)
 Lemma delete_oldest_good m rest tl st : Good rest tl st -> entries st <> [] ->
   exists rest' l1 e l2,
-    delete_oldest m (rest ++ tl, st) = ROk (rest' ++ tl, mkPset (l1 ++ l2) (slen st - p_len e) (List.tl (ties st))) /\
+    delete_oldest (post b18) m (rest ++ tl, st) = ROk (rest' ++ tl, mkPset (l1 ++ l2) (slen st - p_len e) (List.tl (ties st))) /\
     entries st = l1 ++ e :: l2 /\
-    (forall x, In x (entries st) -> p_mtime e <= p_mtime x) /\
+    ((forall x, In x (entries st) -> p_mtime e <= p_mtime x) /\
+     (forall x, In x (entries st) -> heap_leb (post b18) e x = true)) /\
     Good rest' tl (mkPset (l1 ++ l2) (slen st - p_len e) (List.tl (ties st))) /\
     Kills rest rest' /\
     (exists r1 f r2, rest = r1 ++ f :: r2 /\ rest' = r1 ++ kill f :: r2 /\ islog f = true /\
                      f_name f = p_name e /\ length (logs r1) = length l1).
 Proof.
   intros [Hnd Hn Hl Hs] Hne.
-  destruct (pop_spec (hd O (ties st)) (entries st) Hne) as (l1 & e & l2 & Epop & Ees & Hmin).
+  destruct (pop_spec (post b18) (hd O (ties st)) (entries st) Hne) as (l1 & e & l2 & Epop & Ees & Hleb & Hmin).
   rewrite Ees in Hn, Hl.
   rewrite map_app in Hn, Hl. cbn [map] in Hn, Hl.
   symmetry in Hn. destruct (map_split _ _ _ _ _ Hn) as (c1 & f & c2 & Elogs & En1 & Enf & En2).
@@ -284,7 +337,7 @@ Proof.
   assert (Hle : p_len e <= slen st) by (rewrite Hs, Ees; apply sum_member).
   split.
   { unfold delete_oldest. rewrite Epop, Hrm, (sub64_ok m _ _ Hle). reflexivity. }
-  split; [exact Ees|]. split; [exact Hmin|]. split.
+  split; [exact Ees|]. split; [split; [exact Hmin|exact Hleb]|]. split.
   { constructor; cbn [entries slen].
     - rewrite <- app_assoc, live_names_app. cbn [app].
       rewrite (live_names_cons_dead (kill f) _ eq_refl).
@@ -315,26 +368,29 @@ Ltac splits := repeat match goal with |- _ /\ _ => split end.
 (* ------------------------------------------------------------------ the deletion loops *)
 (* [Pops P a b]: b results from a by repeatedly removing an element of minimal mtime that
    satisfies P *)
-Inductive Pops (P : pfile -> Prop) : list pfile -> list pfile -> Prop :=
-| Pops_refl es : Pops P es es
+Inductive Pops (leb : pfile -> pfile -> bool) (P : pfile -> Prop) : list pfile -> list pfile -> Prop :=
+| Pops_refl es : Pops leb P es es
 | Pops_step l1 e l2 es' :
-    (forall x, In x (l1 ++ e :: l2) -> p_mtime e <= p_mtime x) -> P e ->
-    Pops P (l1 ++ l2) es' -> Pops P (l1 ++ e :: l2) es'.
+    (forall x, In x (l1 ++ e :: l2) -> p_mtime e <= p_mtime x) ->
+    (forall x, In x (l1 ++ e :: l2) -> leb e x = true) -> P e ->
+    Pops leb P (l1 ++ l2) es' -> Pops leb P (l1 ++ e :: l2) es'.
 
-Lemma Pops_weaken (P Q : pfile -> Prop) a b : (forall e, P e -> Q e) -> Pops P a b -> Pops Q a b.
+Lemma Pops_weaken leb (P Q : pfile -> Prop) a b : (forall e, P e -> Q e) -> Pops leb P a b -> Pops leb Q a b.
 Proof. intros H. induction 1; [constructor|]. apply Pops_step; auto. Qed.
-Lemma Pops_incl P a b : Pops P a b -> forall x, In x b -> In x a.
+Lemma Pops_incl leb P a b : Pops leb P a b -> forall x, In x b -> In x a.
 Proof.
   induction 1; intros x Hx; auto. specialize (IHPops x Hx).
   apply in_app_or in IHPops. apply in_or_app. cbn. tauto.
 Qed.
-Lemma Pops_sum P a b : Pops P a b -> sumN (map p_len b) <= sumN (map p_len a).
+Lemma Pops_sum leb P a b : Pops leb P a b -> sumN (map p_len b) <= sumN (map p_len a).
 Proof.
   induction 1; [lia|]. rewrite map_app, sumN_app in *. cbn [map]. rewrite sumN_cons. lia.
 Qed.
 
 Section Loops.
 Variable prefix : bytes.
+Variable b18 : bool.
+Notation pv := (post b18).
 Notation islog := (is_log_file post_fix prefix).
 
 Lemma good_empty_sum rest tl st : Good prefix rest tl st -> entries st = [] -> slen st = 0.
@@ -345,9 +401,9 @@ Proof. intros G E. rewrite (g_sum _ _ _ _ G), E. reflexivity. Qed.
 Lemma over_loop_good m mx tl : forall fuel rest st,
   Good prefix rest tl st -> (length (entries st) < fuel)%nat ->
   exists rest' st',
-    over_loop m fuel mx (rest ++ tl, st) = ROk (rest' ++ tl, st') /\
+    over_loop pv m fuel mx (rest ++ tl, st) = ROk (rest' ++ tl, st') /\
     Good prefix rest' tl st' /\ Kills prefix rest rest' /\ slen st' <= mx /\
-    Pops (fun _ => True) (entries st) (entries st') /\
+    Pops (heap_leb pv) (fun _ => True) (entries st) (entries st') /\
     (slen st <= mx -> rest' = rest /\ st' = st).
 Proof.
   induction fuel as [|fuel IH]; intros rest st G Hf; [lia|].
@@ -355,22 +411,22 @@ Proof.
   - apply N.ltb_lt in E.
     assert (Hne : entries st <> []).
     { intros En. rewrite (good_empty_sum _ _ _ G En) in E. lia. }
-    destruct (delete_oldest_good prefix m rest tl st G Hne) as (rest1 & l1 & e & l2 & Ed & Ees & Hmin & G1 & K1 & _).
+    destruct (delete_oldest_good prefix b18 m rest tl st G Hne) as (rest1 & l1 & e & l2 & Ed & Ees & (Hmin & Hleb) & G1 & K1 & _).
     rewrite Ed. cbn [bind].
     destruct (IH rest1 _ G1) as (rest' & st' & El & G' & K' & Hle & P' & _).
     { cbn [entries]. rewrite Ees, app_length in Hf. cbn [length] in Hf. rewrite app_length. lia. }
     exists rest', st'. splits; auto.
     + eapply Kills_trans; eauto.
-    + rewrite Ees. apply Pops_step; auto. rewrite <- Ees. exact Hmin.
+    + rewrite Ees. apply Pops_step; auto; rewrite <- Ees; assumption.
     + intros; exfalso; lia.
   - apply N.ltb_ge in E. exists rest, st. splits; auto using Kills_refl. constructor.
 Qed.
 
 Lemma while_over_good m mx rest tl st : Good prefix rest tl st ->
   exists rest' st',
-    while_over m mx (rest ++ tl, st) = ROk (rest' ++ tl, st') /\
+    while_over pv m mx (rest ++ tl, st) = ROk (rest' ++ tl, st') /\
     Good prefix rest' tl st' /\ Kills prefix rest rest' /\ slen st' <= mx /\
-    Pops (fun _ => True) (entries st) (entries st') /\
+    Pops (heap_leb pv) (fun _ => True) (entries st) (entries st') /\
     (slen st <= mx -> rest' = rest /\ st' = st).
 Proof. intros G. unfold while_over. cbn [snd]. apply over_loop_good; auto. Qed.
 
@@ -378,9 +434,9 @@ Proof. intros G. unfold while_over. cbn [snd]. apply over_loop_good; auto. Qed.
 Lemma older_loop_good m thr tl : forall fuel rest st,
   Good prefix rest tl st -> (length (entries st) <= fuel)%nat ->
   exists rest' st',
-    older_loop m fuel thr (rest ++ tl, st) = ROk (rest' ++ tl, st') /\
+    older_loop pv m fuel thr (rest ++ tl, st) = ROk (rest' ++ tl, st') /\
     Good prefix rest' tl st' /\ Kills prefix rest rest' /\
-    Pops (fun e => p_mtime e < thr) (entries st) (entries st') /\
+    Pops (heap_leb pv) (fun e => p_mtime e < thr) (entries st) (entries st') /\
     (forall e, In e (entries st') -> thr <= p_mtime e) /\ slen st' <= slen st.
 Proof.
   induction fuel as [|fuel IH]; intros rest st G Hf.
@@ -392,7 +448,7 @@ Proof.
       destruct (mm <? thr) eqn:E.
       * apply N.ltb_lt in E.
         assert (Hne : entries st <> []) by (intros En; rewrite En in He0; contradiction).
-        destruct (delete_oldest_good prefix m rest tl st G Hne) as (rest1 & l1 & e & l2 & Ed & Ees & Hmin' & G1 & K1 & _).
+        destruct (delete_oldest_good prefix b18 m rest tl st G Hne) as (rest1 & l1 & e & l2 & Ed & Ees & (Hmin' & Hleb) & G1 & K1 & _).
         rewrite Ed. cbn [bind].
         destruct (IH rest1 _ G1) as (rest' & st' & El & G' & K' & P' & Hthr & Hsl).
         { cbn [entries]. rewrite Ees, app_length in Hf. cbn [length] in Hf. rewrite app_length. lia. }
@@ -400,6 +456,7 @@ Proof.
         -- eapply Kills_trans; eauto.
         -- rewrite Ees. apply Pops_step; auto.
            ++ rewrite <- Ees. exact Hmin'.
+           ++ rewrite <- Ees. exact Hleb.
            ++ specialize (Hmin' e0 He0). lia.
         -- cbn [slen] in Hsl. lia.
       * apply N.ltb_ge in E. exists rest, st. splits; auto using Kills_refl; try constructor; try lia.
@@ -410,9 +467,9 @@ Qed.
 
 Lemma delete_older_than_good m now dur rest tl st : Good prefix rest tl st ->
   exists rest' st',
-    delete_older_than m now dur (rest ++ tl, st) = ROk (rest' ++ tl, st') /\
+    delete_older_than pv m now dur (rest ++ tl, st) = ROk (rest' ++ tl, st') /\
     Good prefix rest' tl st' /\ Kills prefix rest rest' /\
-    Pops (fun e => p_mtime e < now - dur) (entries st) (entries st') /\
+    Pops (heap_leb pv) (fun e => p_mtime e < now - dur) (entries st) (entries st') /\
     (forall e, In e (entries st') -> now - dur <= p_mtime e) /\ slen st' <= slen st.
 Proof. intros G. unfold delete_older_than. cbn [snd]. apply older_loop_good; auto. Qed.
 
@@ -425,10 +482,10 @@ Definition set_ok (st : pset) : Prop := slen st = sumN (map p_len (entries st)).
 Definition res_ok {A} (P : A -> Prop) (r : res A) : Prop :=
   match r with ROk a => P a | RErr a => P a | RPanic => True end.
 
-Lemma delete_oldest_ok m fs st : set_ok st -> res_ok (fun s => set_ok (snd s)) (delete_oldest m (fs, st)).
+Lemma delete_oldest_ok v m fs st : set_ok st -> res_ok (fun s => set_ok (snd s)) (delete_oldest v m (fs, st)).
 Proof.
   intros Hok. unfold delete_oldest. destruct (pop _ _) as [[e r]|] eqn:Ep; [|exact I].
-  destruct (pop_some_inv _ _ _ _ Ep) as (l1 & l2 & -> & Ees & _).
+  destruct (pop_some_inv _ _ _ _ _ Ep) as (l1 & l2 & -> & Ees & _).
   destruct (fs_remove _ _); cbn [res_ok snd]; [|exact Hok].
   assert (Hle : p_len e <= slen st) by (rewrite Hok, Ees; apply sum_member).
   rewrite (sub64_ok m _ _ Hle). cbn [res_ok snd]. unfold set_ok in *. cbn [slen entries].
@@ -439,12 +496,12 @@ Lemma bind_ok {A} (P : A -> Prop) (r : res A) (f : A -> res A) :
   res_ok P r -> (forall a, P a -> res_ok P (f a)) -> res_ok P (bind r f (fun x => x)).
 Proof. destruct r; cbn; auto. Qed.
 
-Lemma over_loop_ok m mx : forall fuel s, set_ok (snd s) -> res_ok (fun s => set_ok (snd s)) (over_loop m fuel mx s).
+Lemma over_loop_ok v m mx : forall fuel s, set_ok (snd s) -> res_ok (fun s => set_ok (snd s)) (over_loop v m fuel mx s).
 Proof.
   induction fuel as [|fuel IH]; intros [fs st] H; cbn [over_loop snd]; destruct (mx <? slen st); cbn; auto.
   apply bind_ok; [now apply delete_oldest_ok|]. intros a Ha. now apply IH.
 Qed.
-Lemma older_loop_ok m thr : forall fuel s, set_ok (snd s) -> res_ok (fun s => set_ok (snd s)) (older_loop m fuel thr s).
+Lemma older_loop_ok v m thr : forall fuel s, set_ok (snd s) -> res_ok (fun s => set_ok (snd s)) (older_loop v m fuel thr s).
 Proof.
   induction fuel as [|fuel IH]; intros [fs st] H; cbn [older_loop snd];
     destruct (min_mtime (entries st)); cbn; auto; destruct (_ <? thr); cbn; auto.
@@ -467,14 +524,14 @@ Qed.
 
 (* One API call in a debug build keeps len = sum of the lengths in the heap (when it returns at
    all); the same holds in a release build as long as the true sum fits 64 bits. *)
-Lemma set_step_ok_debug prefix s o : set_ok (snd s) ->
-  res_ok (fun s' => set_ok (snd s')) (set_step post_fix Debug prefix s o).
+Lemma set_step_ok_debug prefix b18 s o : set_ok (snd s) ->
+  res_ok (fun s' => set_ok (snd s')) (set_step (post b18) Debug prefix s o).
 Proof.
   destruct s as [fs st]. intros H. destruct o; cbn [set_step]; cbn [snd] in H.
   - exact H.
   - unfold set_new. destruct (sum64 _ _ _) as [l|] eqn:E; cbn; auto.
     apply sum64_debug in E. unfold set_ok. cbn [slen entries]. lia.
-  - unfold push. cbn [v_push_counts post_fix]. destruct (add64 _ _ _) as [l|] eqn:E; cbn; auto.
+  - unfold push. cbn [v_push_counts post]. destruct (add64 _ _ _) as [l|] eqn:E; cbn; auto.
     apply add64_debug in E as [-> _]. unfold set_ok in *. cbn [slen entries p_len].
     rewrite map_app, sumN_app. cbn [map p_len]. rewrite sumN_cons, sumN_nil. lia.
   - now apply delete_oldest_ok.
@@ -493,10 +550,10 @@ Fixpoint run_set (v : variant) (m : mode) (prefix : bytes) (s : sys) (ops : list
               end
   end.
 
-Lemma len_is_sum_debug prefix : forall ops s, set_ok (snd s) ->
-  res_ok (fun s' => set_ok (snd s')) (run_set post_fix Debug prefix s ops).
+Lemma len_is_sum_debug prefix b18 : forall ops s, set_ok (snd s) ->
+  res_ok (fun s' => set_ok (snd s')) (run_set (post b18) Debug prefix s ops).
 Proof.
   induction ops as [|o t IH]; intros s H; cbn [run_set]; [exact H|].
-  pose proof (set_step_ok_debug prefix s o H) as Hs.
+  pose proof (set_step_ok_debug prefix b18 s o H) as Hs.
   destruct (set_step _ _ _ _ _); cbn in Hs; auto; exact I.
 Qed.
